@@ -697,3 +697,49 @@ def r8_hand_written_steps(ctx, rid="C01.R8"):
         ctx.ob(rid, "%s|%s|line-order-%d" % (k.rsplit("::", 1)[-1], what, [x for x in sites if x[0] == k].index((k, line, what, wraps, f))), ok,
                "" if ok else "%s steps an occupancy with `%s` without masking out the %s-file first: the bits on that file wrap around the board edge (a pawn on the a-file 'attacks' the h-file). Use the attack tables or mask with the file that cannot make the step" % (f["display"], what, "h" if wraps & FILE_H else "a"),
                ctx.where(f, line), sample={"function": k.rsplit("::", 1)[-1], "shift": what})
+
+
+def r9_relevant_blocker_mask_is_not_a_ray(ctx):
+    """the `mask` of a magic entry is the set of squares whose occupancy changes the attack set - the rays without
+    their last (border) square. It is input to the hash and nothing else: used as 'the squares this slider can reach'
+    it hides every victim on a border square."""
+    rid = "C01.R9"
+    ctx.rule(rid, "MagicConfiguration.mask (the relevant-blocker mask: rays without their border squares) is read only to compute the table index; a move generator that uses it to decide whether a slider has anything to attack never sees a victim on a border square", floor=1)
+    prog = ctx.prog
+    users = {}
+    for k, f in prog.fns.items():
+        if f.get("test") or not k.startswith("inkayaku_board::"):
+            continue
+        def scan(pl, line):
+            for e in pl.get("p", []):
+                if isinstance(e, dict) and e.get("name") == "mask" and "MagicConfiguration" in str(e.get("of")):
+                    users.setdefault(k, line)
+        for b in f["blocks"]:
+            for s in b["stmts"]:
+                if s["dst"] is not None:
+                    scan(s["dst"], s["line"])
+                if "place" in s["rv"]:
+                    scan(s["rv"]["place"], s["line"])
+                for a in s["rv"].get("a", []):
+                    if a.get("k") in ("copy", "move"):
+                        scan(a["pl"], s["line"])
+            t = b["term"]
+            for a in (t.get("args") or []):
+                if a.get("k") in ("copy", "move"):
+                    scan(a["pl"], t.get("line"))
+    if not users:
+        ctx.lost(rid, "readers of MagicConfiguration.mask (field renamed or the tables restructured)")
+        return
+    for k, line in sorted(users.items()):
+        in_tables = ("::precalculated::" in k)
+        ctx.ob(rid, "mask-reader|%s" % k.rsplit("::", 1)[-1], in_tables,
+               "" if in_tables else "%s reads the relevant-blocker mask of a magic entry: that mask leaves out the last square of every ray, so a test like `mask & opponent == 0` skips a slider whose only victims stand on border squares (Ra1xa8 is not generated)" % prog.fns[k]["display"],
+               ctx.where(prog.fns[k], line))
+
+
+_run_before_r9 = run
+
+
+def run(ctx):
+    _run_before_r9(ctx)
+    r9_relevant_blocker_mask_is_not_a_ray(ctx)
